@@ -567,6 +567,9 @@ class FlowAnalysis:
                 body_in = self._assign_kill([target], body_in)
                 # iteration fact: inside the body, `target` is an element of `iter`
                 body_in = body_in.add({(True, f"ITER:{unparse(target)}:{unparse(s.iter)}")})
+                # the body only runs when the iterated collection is non-empty (an iterator object is always truthy)
+                if body_in is not None and isinstance(s.iter, (ast.Name, ast.Attribute)) and not names_in(target) & names_in(s.iter):
+                    body_in = body_in.add({(True, unparse(s.iter))})
             end = self._block(s.body, body_in)
             self._loop_stack.pop()
             new_head = join([st, end] + frame["continue"], collapse=True)
